@@ -134,7 +134,7 @@ impl Prop for C15 {
     type Case = Case;
     const ID: &'static str = "C15";
     fn rule() -> String {
-        "Ordered maps of 0..=12 distinct Shift-JIS-lossless names (empty name, half-width kana, kanji with ASCII-looking trail bytes weighted) to contents with lengths from {0,1,31,32,33,63,64,65, random <= 600}; plus files of 2000 (quick) / 65535 (thorough) tiny \
+        "Ordered maps of 0..=12 distinct Shift-JIS-lossless names (empty name, half-width kana, kanji with ASCII-looking trail bytes weighted) to contents with lengths from {0,1,31,32,33,63,64,65, random <= 600}; plus files of 65535 and 4097 tiny \
          entries and a few >= 64 KiB bodies. Oracle: parse(serialize(m)) == m including order; an independent reader of the image checks the magic, count = number of files, every recorded name offset points at the NUL-terminated Shift-JIS name inside the file, \
          every (address, size) is exact and inside the file, address % 32 == 0; a reference builder produces a second conforming image of the same files (names before / after / between bodies, bodies in any order, gaps, arbitrary unknown fields, bodies 32-aligned) \
          and parse must return the same files. Non-trivial: >= 2 files with at least one length not a multiple of 32 or empty, or a non-ASCII name. Distinct = distinct case value."
@@ -161,7 +161,7 @@ impl Prop for C15 {
         (proptest::collection::vec((name, content), 0..=12), any::<u64>()).prop_map(|(files, placement_seed)| Case::Files { files, placement_seed }).boxed()
     }
     fn enumerate(tier: Tier, shard: u64, nshards: u64, f: &mut dyn FnMut(Case) -> bool) {
-        let mut cases = vec![Case::Files { files: vec![], placement_seed: 1 }, Case::Many { count: tier.pick(2000, 65535), size: 1 }, Case::Many { count: 300, size: 0 }, Case::Many { count: 1, size: 32 }];
+        let mut cases = vec![Case::Files { files: vec![], placement_seed: 1 }, Case::Many { count: 65535, size: 1 }, Case::Many { count: tier.pick(4097, 30000), size: 3 }, Case::Many { count: 300, size: 0 }, Case::Many { count: 1, size: 32 }];
         // every pair of lengths around the 32-byte boundary, ASCII and non-ASCII names
         for a in [0u32, 1, 31, 32, 33] {
             for b in [0u32, 31, 32, 33, 64] {
@@ -177,7 +177,7 @@ impl Prop for C15 {
         }
     }
     fn exhaustive_note(tier: Tier) -> Option<String> {
-        Some(format!("fixed family: empty archive, {} one-byte files, 300 empty files, every pair of body lengths from {{0,1,31,32,33}} x {{0,31,32,33,64}} with ASCII / non-ASCII / empty names", tier.pick(2000, 65535)))
+        Some(format!("fixed family: empty archive, 65535 one-byte files, {} three-byte files, 300 empty files, every pair of body lengths from {{0,1,31,32,33}} x {{0,31,32,33,64}} with ASCII / non-ASCII / empty names", tier.pick(4097, 30000)))
     }
 
     fn run(case: &Case, cx: &mut Cx) {
